@@ -259,6 +259,16 @@ def one_pass(ctx: CaseCtx, vtf, inputs: Dict[Tuple[int, Any, int], bytes], phase
         run.count('real_file_passes')
     else:
         data = buf.getvalue()
+    # the same object saved again with the same arguments: the same bytes
+    try:
+        buf2 = io.BytesIO()
+        vtf.save(buf2, **save_kw)
+        if buf2.getvalue() != data:
+            k = next((i for i, (a, b) in enumerate(zip(data, buf2.getvalue())) if a != b), min(len(data), len(buf2.getvalue())))
+            ctx.bad('save-not-repeatable', f'saving the same VTF twice gives different bytes (first difference at offset {k}, lengths {len(data)}/{len(buf2.getvalue())})', phase=phase)
+        run.count('repeated_saves')
+    except Exception as exc:
+        ctx.bad('save-not-repeatable', f'the second save of the same VTF raised {type(exc).__name__}: {exc}', phase=phase)
 
     # --- the file must contain exactly the image data its own header declares (decoded without the library)
     is_cube = bool(vtf.flags.value & G.ENVMAP)
@@ -795,7 +805,7 @@ def main(run, shard=(0, 1)) -> None:
     probe.report(run)
     probe.check_reached(run)
     run.extra['formats'] = list(G.WRITABLE)
-    run.require('saves', 'reads', 'real_file_passes', 'resaves', 'frames_compared', 'thumbnails_compared', 'generated_mipmaps_checked', 'nearest_filter_regenerations',
+    run.require('saves', 'reads', 'real_file_passes', 'repeated_saves', 'resaves', 'frames_compared', 'thumbnails_compared', 'generated_mipmaps_checked', 'nearest_filter_regenerations',
                 'index_probes', 'resource_sets_compared', 'sheets_compared', 'one_wide_textures', 'cubemaps_with_sphere',
                 'cubemaps_without_sphere', 'volumetric_textures', 'reduced_precision_main_format', 'handmade_files_read',
                 'sweep_images')
